@@ -295,7 +295,6 @@ func expectPB(v oracle.Val, ft byte, prec int64) string {
 
 var _ = decimal.MaxExp
 
-
 // carryPastMaxExp is the predicate of known finding D27: x's leading digit sits at
 // MaxExp and rounding at the requested position carries into 10^MaxExp, a value the
 // library cannot hold in the temporary it rounds into (it prints a zero instead).
